@@ -188,7 +188,14 @@ pub fn judge_e2e(sc: &crate::e2e::Scenario, out: &crate::e2e::Outcome, rep: &Val
     };
     judge_lines("stdout", &out.lines)?;
     if let Some(fl) = &out.file_lines {
-        judge_lines("the --output file", fl)?;
+        // the file receives the same records in the same order; the process is stopped while it runs, so the record
+        // printed last may not have reached the file yet (the write follows the println in the same loop iteration)
+        let n = out.lines.len();
+        let same = (fl.len() == n || fl.len() + 1 == n) && fl.iter().zip(out.lines.iter()).all(|(a, b)| a == b);
+        if !same {
+            let k = fl.iter().zip(out.lines.iter()).position(|(a, b)| a != b).unwrap_or(fl.len().min(n));
+            return Err(fail("file-differs-from-stdout", format!("the --output file has {} lines, stdout {}; first difference at line {}: file {:?}, stdout {:?}", fl.len(), n, k + 1, fl.get(k), out.lines.get(k))));
+        }
     }
     Ok(())
 }
@@ -290,7 +297,7 @@ pub fn run(ctx: &Ctx) {
             let n = ctx.tier.pick(48u32, 640u32);
             let shards = 16u32;
             (0..shards).into_par_iter().for_each(|s| {
-                run_prop(ctx, &format!("e2e-{s}"), n / shards, e2e_case(), |c| check_e2e(ctx, &env, c, &format!("c11-{s}")));
+                vcore::ev::run_prop_shrink(ctx, &format!("e2e-{s}"), n / shards, 16, e2e_case(), |c| check_e2e(ctx, &env, c, &format!("c11-{s}")));
             });
         }
         None => {
